@@ -234,6 +234,28 @@ def check_iterators(ctx, lib, rule):
             if r[0] == "call" and r[1].split("::")[-1] == "take" and unify(cursor, r[2][0]) is not None and not scr_take:
                 improper = True
         ctx.expect(improper, rule, key + "|yields-improper-tail", site, "a non-list, non-empty current node (improper tail) must be yielded as the final element")
+        # after a cell: the iteration ends only when the tail is the empty list; any other tail
+        # (a further cell, or an improper tail of any kind) becomes the next cursor
+        adt = lib.adts.get("crate::lterm::LTermInner")
+        KINDS = frozenset(v.get("name") for v in (adt or {}).get("variants", []))
+        tails = list(dict.fromkeys(x for x in sym.subterms(t) if x[0] == "proj" and isinstance(x[2], str) and x[2].endswith("LTermInner::Cons") and x[3] == 1))
+        if ctx.expect(len(tails) == 1 and len(KINDS) >= 5, rule, key + "|tail-projection", site, "expected one tail projection of the matched cell, found %d" % len(tails)):
+            tail = tails[0]
+            stop_kinds, go_kinds = set(), set()
+            for s_, lits in tables.occurrences_with_guards(t):
+                is_stop = s_[0] == "assign" and unify(cursor, s_[1]) is not None and s_[2][0] == "ctor" and s_[2][1].endswith("None")
+                is_go = (s_[0] == "call" and suffix_match(s_[1], "replace") and unify(cursor, s_[2][0]) is not None and s_[2][1] == tail) or (s_[0] == "assign" and unify(cursor, s_[1]) is not None and any(x == tail for x in sym.subterms(s_[2])))
+                if not (is_stop or is_go):
+                    continue
+                # only inside the cell arm (the tail projection is meaningful there)
+                in_cell = any(l[0] == "matches" and w and any(c.endswith("LTermInner::Cons") for c in _all_ctors(l[2])) for l, w in lits)
+                if not in_cell:
+                    continue
+                ks = _tail_kinds(lits, tail, {}, KINDS)
+                (stop_kinds if is_stop else go_kinds).update(ks)
+            # (an iterator that empties its cursor on entry stops implicitly: no explicit "stop" store)
+            ok = stop_kinds <= {"Empty"} and go_kinds == set(KINDS) - {"Empty"}
+            ctx.expect(ok, rule, key + "|continues-unless-empty-tail", site, "after a cell the iteration must stop exactly when the tail is [] and continue with every other tail; stops for %s, continues for %s" % (sorted(stop_kinds), sorted(go_kinds)))
 
 
 def _scrutinee_takes(t, cursor):
@@ -243,6 +265,21 @@ def _scrutinee_takes(t, cursor):
                 if unify(cursor, c[2][0]) is not None:
                     return True
     return False
+
+
+def _all_ctors(p):
+    out = []
+    if isinstance(p, tuple) and p:
+        if p[0] == "pctor":
+            out.append(p[1])
+            for x in p[2]:
+                out += _all_ctors(x)
+        elif p[0] in ("ptuple", "por"):
+            for x in p[1]:
+                out += _all_ctors(x)
+        elif p[0] == "pbind" and p[3]:
+            out += _all_ctors(p[3])
+    return out
 
 
 def _kind(c):
